@@ -131,6 +131,12 @@ package dagsync
 //@   ghost segSync0 := zero("*cid.Cid")
 //@   at call reset#1: ghost segSync0 := segSync.nextSyncCid
 //@   at call withRecursionLimit#1: assert arg0 == sel && arg1.mode == 1 && arg1.depth == nextDepth
+// the selector handed to a segment's Sync is the one built for that segment's depth:
+//@   ghost gdepth := 0
+//@   ghost gsel := zero("ipld.Node")
+//@   at call withRecursionLimit#1: after ghost gdepth := arg1.depth
+//@   at call withRecursionLimit#1: after ghost gsel := result0
+//@   at call Sync#2: assert gdepth == nextDepth && arg3 == gsel
 //@   loop 1: invariant syncBySegment && segdl >= 1 && 1 <= nextDepth && nextDepth <= segdl && 0 <= depthSoFar
 //@   loop 1: invariant origLimit.mode == 1 ==> depthSoFar < origLimit.depth && nextDepth == min(segdl, origLimit.depth - depthSoFar) && origLimit.depth > segdl
 //@   loop 1: invariant origLimit.mode != 1 ==> nextDepth == segdl
